@@ -879,6 +879,8 @@ class P(Prop):
         (M, "TV.C06.astar_output_dict_entries_sound", "A* with a consistent heuristic, any target, any cut-off: every output_dict entry is the true distance of its key within the cut-off; entries = visited nodes; every visited node's label is its true distance"),
         (M, "TV.C06.consistent_of_scaled_metric", "edges weighing at least astar_wgt x the distance between their ends + the triangle inequality make the heuristic consistent (the configuration the oracle holds A* to the statement for)"),
         (M, "TV.C06.world_astar_distance_correct", "any program over several Network objects: on an object whose own method is A* at that moment and whose heuristic towards t is consistent on its current graph, shortest_distance(s,t[,cut]) = the minimum over permitted walks, sentinel iff none; with a cut-off the true distance whenever within it"),
+        (M, "TV.C06.astar_heuristic_consistent", "Node.distanceTo is the Euclidean distance (triangle inequality proved, any sqrt that is a square root on an ordered field): with 0 <= astar_wgt and every permitted arc weighing at least astar_wgt x the straight-line distance of its ends (the oracle's predicate) the heuristic towards any target is consistent and smallest at the target"),
+        (M, "TV.C06.world_astar_metric_distance_correct", "the property for A* at full strength, hypotheses on the configuration only: in any program, on an A* object with 0 <= astar_wgt and arcs >= astar_wgt x straight-line length, shortest_distance(s,t[,cut]) = the minimum over permitted walks, sentinel iff none, true distance whenever within the cut-off"),
         (M, "TV.C06.world_astar_call_is_pure", "in any state of such a program a search with a target on an A* object answers, and fills output_dict, as the pure A* search on its current graph (flags of earlier searches are reset)"),
         (M, "TV.C06.astar_old_inflates", "what fix c78e3ab repaired: on the road 0-10-1-10-2 (consistent heuristic) the PRE-FIX loop (HOld: poids = g + h) reported 30; the model of the present code, Dijkstra and the true distance are 20, also under the cut-off 20"),
     ]
@@ -890,7 +892,7 @@ class P(Prop):
                        "sub_network in GEOMETRIC mode is outside the model; in the family model (shared Node objects) every member routes with Dijkstra "
                        "(setRoutingMethod on a member of a family is not modelled: the world model has the settings, with private Node objects)",
                        "A*: exactness is proved in exact arithmetic (ordered cancellative monoid); with float weights the g + h comparisons are subject to rounding (float world stream: 1e-9 relative). "
-                       "The Euclidean triangle inequality behind `consistent_of_scaled_metric` is a hypothesis (sqrt is a parameter of the model); A* with a heuristic that is NOT consistent is outside the statement "
+                       "sqrt is a parameter of the model, assumed to be a square root on the non-negative elements of an ordered field (IsSqrt; the Euclidean triangle inequality is proved from that); A* with a heuristic that is NOT consistent is outside the statement "
                        "(documented as approximate): only astar_any_heuristic_bounds is proved and judged for it"]
     modelled = ("Network.__init__ (routing_mode, astar_wgt as instance attributes), setRoutingMethod, setAStarWeight, the A* branch of run_routing_forward as it is after fix c78e3ab "
                 "(heuristic = astar_wgt * fils.distanceTo(NODES[target]) when routing_mode == 1 and a target is given, else its initial 0; fils.poids = pere.poids + e.weight — the label is g, so the stop test "
